@@ -150,6 +150,43 @@ func genC11(tier, out string, sum *Summary) {
 			}
 		}
 	}
+	// white space is a set of CODE POINTS (Unicode White_Space), never of bytes: characters whose encoding ends or
+	// begins with a byte that is a Latin-1 space (0x85, 0xA0) stay, the white space characters beyond ASCII go, and
+	// look-alikes that are not white space (zero width space, word joiner, Mongolian vowel separator) stay
+	{
+		isSpace := func(r rune) bool {
+			switch r {
+			case '\t', '\n', '\v', '\f', '\r', ' ', 0x85, 0xA0, 0x1680, 0x2028, 0x2029, 0x202f, 0x205f, 0x3000:
+				return true
+			}
+			return r >= 0x2000 && r <= 0x200a
+		}
+		edges := []string{"", " ", "\t", "\u00a0", "\u0085", "\u2003", "\u3000", "\u2028", "\u1680", "\u202f \u205f", "\v\f", "\u200b", "\u2060", "\u180e", "\ufeff", "à", "Å", "†", "だ", "\u0105", "\u00c5\u00a0", "\u0085à", "x\u00a0", "\u00a0x", "ࠅ", "𐀅", "\u2000\u200a"}
+		cores := []string{"", "a", "voilà", "Å b †", "だ", "\u00a0", "a\u0085b"}
+		k := 0
+		for _, pre := range edges {
+			for _, post := range edges {
+				for _, core := range cores {
+					k++
+					if tier != "thorough" && k%4 != 0 && !(pre == "" || post == "") {
+						continue
+					}
+					subj := pre + core + post
+					d := map[string]any{"s": subj, "e": ""}
+					l, r := strings.TrimLeftFunc(subj, isSpace), strings.TrimRightFunc(subj, isSpace)
+					both := strings.TrimRightFunc(l, isSpace)
+					expect("trim-space", "trim_left(s)", d, l)
+					expect("trim-space", "trim_right(s)", d, r)
+					expect("trim-space", "trim(s)", d, both)
+					if k%3 == 0 {
+						expect("trim-space", "trim_left(s, e)", d, l)
+						expect("trim-space", "trim_right(s, e)", d, r)
+						expect("trim-space", "trim(s, '')", d, both)
+					}
+				}
+			}
+		}
+	}
 	// cut sets are sets of code points: a character that shares its first byte with one in the set stays
 	for _, c := range [][2]string{{"éa", "è"}, {"ààéa", "à"}, {"жук", "з"}, {"。、", "、"}, {"aéè", "è"}, {"éèé", "é"}, {"😀😁x", "😁"}, {"x😀😁", "😀"}, {"€₭", "₭"}, {"ab", ""}, {"  é ", " "}, {"éé", "éè"}} {
 		subj, cut := c[0], c[1]
